@@ -314,12 +314,32 @@ floating_point_number = (
 # Basic arithmetic operations
 plus, minus, mult, div = map(pp.Literal, "+-*/")
 
+
+
+def _parse_mult_or_div(tokens: pp.ParseResults) -> float:
+    # tokens[0] is the flat, left-associative chain: operand (operator operand)*
+    chain = tokens[0]
+    result = chain[0]
+    for op, operand in zip(chain[1::2], chain[2::2]):
+        result = result * operand if op == "*" else result / operand
+    return result
+
+
+def _parse_plus_or_minus(tokens: pp.ParseResults) -> float:
+    # tokens[0] is the flat, left-associative chain: operand (operator operand)*
+    chain = tokens[0]
+    result = chain[0]
+    for op, operand in zip(chain[1::2], chain[2::2]):
+        result = result + operand if op == "+" else result - operand
+    return result
+
+
 # Using infixNotation to manage precedence of operations
 arithmetic_expr = pp.infixNotation(
     floating_point_number,
     [
-        (mult | div, 2, pp.opAssoc.LEFT, lambda s, l, t: t[0][0] * t[0][2] if t[0][1] == "*" else t[0][0] / t[0][2]),
-        (plus | minus, 2, pp.opAssoc.LEFT, lambda s, l, t: t[0][0] + t[0][2] if t[0][1] == "+" else t[0][0] - t[0][2]),
+        (mult | div, 2, pp.opAssoc.LEFT, _parse_mult_or_div),
+        (plus | minus, 2, pp.opAssoc.LEFT, _parse_plus_or_minus),
     ],
 )
 
